@@ -165,9 +165,13 @@ class ProgGen:
     def args_for(self, f, depth):
         r = self.r
         out = []
+        def pexpr(a):
+            if f['path'] == 'eth::frame' and a['name'] in ('src', 'dst') and r.chance(15, 16):
+                return '"|%s|"' % r.bytes(6).hex()
+            return self.expr(a['type'], depth)
         for a in f['args']:
             if a['kind'] == 'pos':
-                e = self.expr(a['type'], depth)
+                e = pexpr(a)
                 out.append(('%s: %s' % (a['name'], e)) if r.chance(1, 6) else e)
         named_mode = any(':' in x.split('(')[0] and not x[0].isdigit() for x in out)
         # after a named positional all further positionals must be named: regenerate simply
@@ -175,7 +179,7 @@ class ProgGen:
             out = []
             for a in f['args']:
                 if a['kind'] == 'pos':
-                    out.append('%s: %s' % (a['name'], self.expr(a['type'], depth)))
+                    out.append('%s: %s' % (a['name'], pexpr(a)))
         for a in f['args']:
             if a['kind'] == 'opt' and r.chance(1, 3):
                 t = a['default']['type']
@@ -183,7 +187,9 @@ class ProgGen:
                     t = a['default']['value']
                 if t == 'Void': continue
                 out.append('%s: %s' % (a['name'], self.expr(t, depth)))
-        if f['collect_type'] != 'Void':
+        if f['path'] == 'netbios::name::encode' and r.chance(7, 8):
+            out.append('"%s"' % ''.join(r.choice('ABCDEFGHWORKGROUP-1') for _ in range(r.below(16))))
+        elif f['collect_type'] != 'Void':
             for _ in range(r.below(4)):
                 out.append(self.expr(f['collect_type'], depth))
         elif False:
